@@ -126,7 +126,7 @@ func (vc *VC) pureOpaqueResult(st *State, rt types.Type, name string) Val {
 	return vc.freshVal(st, rt, "r."+name)
 }
 
-func (vc *VC) opaqueResult(st *State, rt types.Type, what string) Val {
+func (vc *VC) opaqueResult0(st *State, rt types.Type, what string) Val {
 	if vc.curCall != nil && vc.fn != nil && os.Getenv("GOVC_NO_EFFECTS") == "" {
 		// computed write effects of the callee(s): havoc exactly those components
 		eff := &effectSet{comps: map[string]bool{}}
@@ -174,6 +174,12 @@ func (vc *VC) opaqueResult(st *State, rt types.Type, what string) Val {
 		return Val{K: KUnit}
 	}
 	return vc.freshVal(st, rt, "r."+what)
+}
+
+func (vc *VC) opaqueResult(st *State, rt types.Type, what string) Val {
+	var res Val
+	vc.keepPrivateCells(st, func() { res = vc.opaqueResult0(st, rt, what) })
+	return res
 }
 
 func (vc *VC) lookupContract(fn *ssa.Function) *Contract {
@@ -311,7 +317,7 @@ func (vc *VC) applyContract(st *State, c *Contract, key string, sig *types.Signa
 	}
 	// effects
 	if !c.HasMod {
-		vc.havocAll(st)
+		vc.keepPrivateCells(st, func() { vc.havocAll(st) })
 		vc.assumptions["callee "+key+" has no modifies clause: all heap components havocked at the call"] = true
 	} else {
 		// the callee may allocate: advance the watermark first, so that havocked locations may
